@@ -70,3 +70,11 @@ Definition MemA_set_vmsa_spec (have_sec : Z) (s : machine) (address size value :
   | Ok d s1 => Ok tt (MemA_write s1 (pa_of_desc d) size value)
   | Exc e s1 => Exc e s1
   end.
+
+(* long-descriptor format: the physical address and NS bit of a successful translation (memory attributes through MAIRn are not
+   specified here); faults are reported as the Data Abort type only: the emulator cannot report them at all (finding) *)
+Definition ld_translate_spec (have_sec : Z) (s : machine) (va : Z) (ispriv iswrite : bool) : list Z :=
+  match ld_translate (secure_of have_sec s) s va ispriv iswrite with
+  | LX_ok pa ns => [0; pa; ns]
+  | LX_fault f _ => [2; 4; vf_dtype f; 0]
+  end.
